@@ -140,6 +140,11 @@ type SimSub struct {
 	Named  bool
 	UseVar bool
 
+	// Args is the argument map the subscription resolver received when this
+	// subscriber was registered (kept, as NewSubscription keeps it): it must
+	// stay what it was.
+	Args map[string]interface{}
+
 	env   SubEnv
 	sends int
 }
@@ -150,6 +155,11 @@ var ErrSend = errors.New("simsub: delivery failed")
 // Match implements ggql.Subscriber.
 func (s *SimSub) Match(eventID string) bool {
 	m := s.Topic == "" || s.Topic == eventID
+	if s.Args != nil && toInt(s.Args["sid"]) != s.ID {
+		// the argument map handed to the resolver at registration was changed
+		// behind the subscriber's back
+		s.env.Event("ArgsChanged", strconv.Itoa(s.ID)+"|sid is now "+CanonLite(s.Args["sid"]))
+	}
 	s.env.Event("Match", strconv.Itoa(s.ID)+"|"+eventID+"|"+strconv.FormatBool(m))
 	return m
 }
@@ -238,6 +248,7 @@ func (s subSubscription) Resolve(field *ggql.Field, args map[string]interface{})
 	if sub == nil {
 		return nil, errors.New("unknown subscriber " + strconv.Itoa(sid))
 	}
+	sub.Args = args
 	return ggql.NewSubscription(sub, field, args), nil
 }
 
